@@ -34,7 +34,7 @@ NSHARDS = 16
 
 
 def plan(tier, seed):
-    return [{'mode': 'ifaces', 'slice': i} for i in range(NSHARDS)] + [{'mode': 'versions'}]
+    return [{'mode': 'ifaces', 'slice': i} for i in range(NSHARDS)] + [{'mode': 'versions'}, {'mode': 'gdb_arrays', 'gdb_shim': True}]
 
 
 def enum_values(rng, enum):
@@ -429,7 +429,74 @@ def run_versions(ctx, spec):
         shutil.rmtree(d, ignore_errors=True)
 
 
+def run_gdb_arrays(ctx, spec):
+    """GDB mode shows the elements of an array argument; for array arguments that carry an enum (xdg_toplevel.configure states
+    ...) every element is annotated like an integer argument.  Exhaustive over the shipped array arguments, through the
+    unmodified plugin on the gdb shim."""
+    env.setup(spec)
+    from .. import gdbsim
+    cands = wlxml.shipped(env.REPO)
+    gs = gdbsim.GdbSession()
+    gs.new_connection(0, 'client')
+    t = [0]
+
+    def deliver(rec):
+        n0, _ = gs.mark()
+        stop, exc = gs.deliver(gs.event_for(0, rec))
+        return [outline.parse_line(l) for l in gs.written_since(n0)], exc
+    deliver({'send_c': True, 'iface': 'wl_display', 'id': 1, 'name': 'get_registry', 'args': [{'k': 'n', 'v': 2, 'iface': 'wl_registry'}]})
+    oid = 3
+    for iface in sorted(cands):
+        for c in cands[iface][:1]:
+            for msg, md in sorted(c['messages'].items()):
+                arr = [i for i, a in enumerate(md['args']) if a['type'] == 'array']
+                if not arr or any(a['type'] in ('new_id', 'object') for a in md['args']) or len(cands[iface]) > 1:
+                    continue
+                deliver({'send_c': True, 'iface': 'wl_registry', 'id': 2, 'name': 'bind',
+                         'args': [{'k': 'u', 'v': oid}, {'k': 's', 'v': iface}, {'k': 'u', 'v': 1}, {'k': 'n', 'v': oid, 'iface': None}]})
+                for ai in arr:
+                    e = wlxml.arg_enum(iface, msg, md['args'][ai])
+                    es = wlxml.find_enum(cands, iface, e) if e else []
+                    vals = ([v for _, v in es[0]['entries']] + [0, 9999]) if es else [0, 1, 7]
+                    args = []
+                    for i, a in enumerate(md['args']):
+                        ty = a['type']
+                        if i == ai:
+                            args.append({'k': 'a', 'data': vals})
+                        elif ty in ('int', 'uint'):
+                            args.append({'k': 'i' if ty == 'int' else 'u', 'v': 7})
+                        elif ty == 'fixed':
+                            args.append({'k': 'f', 'v': 384})
+                        elif ty == 'string':
+                            args.append({'k': 's', 'v': 's x'})
+                        elif ty == 'array':
+                            args.append({'k': 'a', 'data': []})
+                        elif ty == 'fd':
+                            args.append({'k': 'h', 'v': 5})
+                    items, exc = deliver({'send_c': not md['is_event'], 'iface': iface, 'id': oid, 'name': msg, 'args': args})
+                    ctx.ev()
+                    ctx.count('gdb_array_arguments')
+                    case = {'gdb_array': [iface, msg, ai]}
+                    msgs = [x for x in items if x['kind'] == 'msg']
+                    if exc is not None or len(msgs) != 1 or msgs[0]['args'] is None or len(msgs[0]['args']) != len(args):
+                        ctx.violation('gdb-array-line', '%s.%s: %r %r' % (iface, msg, exc, [x['text'] for x in items][:2]), case)
+                        continue
+                    tok = msgs[0]['args'][ai]
+                    want = [(v, wlxml.labels_for(es[0], v) if es else None) for v in vals]
+                    got = [(x['value'], x['labels']) for x in (tok['value'] or [])] if tok['kind'] == 'array' else None
+                    if got is not None and any(x['name'] is not None for x in tok['value']):
+                        got = 'elements carry names'
+                    if got != want or tok['name'] != md['args'][ai]['name']:
+                        ctx.violation('gdb-array-labels', '%s.%s argument %d shown as %r, the XML (enum %r) says %r' % (iface, msg, ai, tok['raw'][:200], e, want), case)
+                    elif es:
+                        ctx.sig(['gdb-array', iface, msg, ai])
+                        ctx.count('gdb_array_arguments_with_enum')
+                oid += 1
+
+
 def run(ctx, spec):
+    if spec.get('mode') == 'gdb_arrays':
+        return run_gdb_arrays(ctx, spec)
     if spec.get('mode') == 'versions':
         run_versions(ctx, spec)
         run_enum_paths(ctx, spec)
